@@ -6,7 +6,7 @@
 (* A rejected event is reported by a line <<"BAD", l, ...>> (l = its line      *)
 (* number) so that one pass reports every rejected event; the run is accepted *)
 (* only if the number of distinct states equals the number of events.         *)
-EXTENDS LocalPart, Json, IOUtils, TLC
+EXTENDS Email, Json, IOUtils, TLC
 VARIABLES l
 
 TraceLog == ndJsonDeserialize(IOEnv.TRACE)
@@ -27,8 +27,55 @@ LocalOk(ev) ==
        /\ (rc = 0) = (LocalRc(o, m, s) = 0)
        /\ (rc < 0 => LTruth(o, m, 0 - rc, s))
 
+HostOk(ev) ==
+  LET o == OptsOf(ev.o)  d == ev.in  rc == ev.rc IN
+  /\ rc <= 0
+  /\ (rc = 0) = IsHostname(o, d)
+  /\ (rc < 0 => HTruthFull(o, 0 - rc, d))
+
+LiteralOk(ev) ==
+  LET d == ev.in  rc == ev.rc  e == LiteralExp(d) IN
+  /\ rc <= 0 /\ (rc = 0 => e # 0) /\ (rc < 0 => e # 1 /\ ITruth(0 - rc, d))
+
+(* whole-address event: truth of the reported code (C15) and, in mode 6531, the outcome given the    *)
+(* converter's recorded answer cc / co (C04 for A-labels, C07, C10, C19)                                *)
+EmailOk(ev) ==
+  LET o == OptsOf(ev.o)  m == ev.mode  tld == (ev.tld = 1)  s == ev.in  rc == ev.rc  fl == ev.fl
+      at == AtPos(s)  n == Len(s)
+      split == at >= 1 /\ at < n
+      L == IF split THEN LPart(s) ELSE <<>>
+      D == IF split THEN DPart(s) ELSE <<>>
+      hasconv == "cc" \in DOMAIN ev
+      conv == IF hasconv THEN [code |-> ev.cc, out |-> ev.co] ELSE ConvAscii(D)
+      Dx == IF m = RFC6531 /\ hasconv /\ conv.code = 0 THEN conv.out ELSE D      \* what the host-name rules see
+      code == 0 - rc
+      le == IF split /\ Len(L) <= 64 THEN LocalExp(o, m, L) ELSE 0
+  IN
+  /\ rc <= 9 /\ fl \in {0, 1, 2, 4} /\ (rc >= 0 => fl # 0)
+  /\ (rc < 0 =>
+        CASE code = E_EMAIL_EMPTY -> n = 0
+          [] code = E_DOMAIN_EMPTY -> ~split \/ Len(D) = 0
+          [] code = E_LPART_TOO_LONG -> at - 1 > 64
+          [] code \in 4..15 -> split /\ LTruthFull(o, m, code, L)
+          [] code \in 17..22 -> split /\ D[1] # LBR /\ HTruthFull(o, code, Dx)
+          [] code = E_DOMAIN_NOT_FQDN -> split /\ tld /\ ~Has(Body(Dx), DOT) /\ ~IsReserved(Dx)
+          [] code \in 24..25 -> split /\ D[1] = LBR /\ ITruth(code, D)
+          [] code = E_TLD_INVALID -> split /\ tld /\ TldClassOfLabel(LastLabel(Dx)) < 0
+          [] code = E_IDN_ERROR -> m = RFC6531 /\ split /\ D[1] # LBR /\ (hasconv => conv.code # 0 /\ ev.idn = conv.code) /\ fl = 0
+          [] OTHER -> FALSE)
+  /\ (rc > 0 => split /\ tld /\ D[1] # LBR /\ (HasRoot(Dx) \/ rc = TldClassP(Dx)))
+  /\ (rc = 0 /\ split /\ D[1] # LBR => ~tld /\ fl = 4)
+  /\ (m = RFC6531 /\ hasconv /\ le = 1 =>
+        IF conv.code # 0 THEN rc = 0 - E_IDN_ERROR
+        ELSE /\ (rc >= 0) = (IsHostname(o, Dx) /\ (tld /\ ~HasRoot(Dx) => TldClassP(Dx) > 0) /\ (tld /\ HasRoot(Dx) => rc > 0))
+             /\ (rc >= 0 /\ tld /\ ~HasRoot(Dx) => rc = TldClassP(Dx)))
+
 EventOk(ev) ==
   CASE ev.e = "local" -> LocalOk(ev)
+    [] ev.e = "host" -> HostOk(ev)
+    [] ev.e = "literal" -> LiteralOk(ev)
+    [] ev.e = "email" -> EmailOk(ev)
+    [] ev.e \in {"ipv4", "ipv6", "ipaddr"} -> TRUE     \* bare validators: drift is recorded, nothing is pinned
     [] OTHER -> FALSE
 
 Init == l \in {i \in 1..N : i % Chunk = 1} \cup (IF N = 0 THEN {0} ELSE {})
